@@ -161,7 +161,7 @@ func genStructure(out, repo string) {
 					case *ast.ExprStmt:
 						// a call statement whose callee returns an error
 						if c, ok := n.X.(*ast.CallExpr); ok {
-							if tv, ok := info.Types[c]; ok && returnsError(tv.Type) {
+							if tv, ok := info.Types[c]; ok && returnsError(tv.Type) && !infallibleWriter(info, c) {
 								dropped = append(dropped, site{rel, fn, exprString(c.Fun)})
 							}
 						}
@@ -229,6 +229,37 @@ func genStructure(out, repo string) {
 }
 
 func returnsError(t types.Type) bool { return errorIndex(t) >= 0 }
+
+// infallibleWriter: a method of bytes.Buffer or strings.Builder (their Write* methods are documented never to
+// return an error), or fmt.Fprint* into one of them
+func infallibleWriter(info *types.Info, c *ast.CallExpr) bool {
+	isBuf := func(e ast.Expr) bool {
+		tv, ok := info.Types[e]
+		if !ok {
+			return false
+		}
+		t := tv.Type
+		if p, ok := t.(*types.Pointer); ok {
+			t = p.Elem()
+		}
+		if n, ok := t.(*types.Named); ok && n.Obj().Pkg() != nil {
+			q := n.Obj().Pkg().Path() + "." + n.Obj().Name()
+			return q == "bytes.Buffer" || q == "strings.Builder"
+		}
+		return false
+	}
+	sel, ok := c.Fun.(*ast.SelectorExpr)
+	if !ok {
+		return false
+	}
+	if isBuf(sel.X) {
+		return true
+	}
+	if id, ok := sel.X.(*ast.Ident); ok && id.Name == "fmt" && strings.HasPrefix(sel.Sel.Name, "Fprint") && len(c.Args) > 0 {
+		return isBuf(c.Args[0])
+	}
+	return false
+}
 
 func errorIndex(t types.Type) int {
 	isErr := func(t types.Type) bool {
